@@ -35,3 +35,12 @@ Fixpoint last_assign (i : nat) (ops : list (nat * bool)) (acc : option bool) : o
   | [] => acc
   | (j, b) :: r => last_assign i r (if (i =? j)%nat then Some b else acc)
   end.
+
+(* where the field lives in a header layout: byte offset, kind, width *)
+From Coq Require Import String.
+From LasV Require Import Lib.Layout.
+Fixpoint field_at (l : layout) (name : string) (off : Z) : option (Z * kind * nat) :=
+  match l with
+  | [] => None
+  | (k, w, n) :: r => if String.eqb n name then Some (off, k, w) else field_at r name (off + Z.of_nat w)
+  end.
